@@ -333,6 +333,7 @@ class CallMixin:
         if isinstance(f, ast.Name) and self.spec_mode and f.id in ('old', 'implies', 'forall', 'exists', 'iff', 'head', 'cur', 'is_new'):
             return self.spec_call(st, e)
         if isinstance(f, ast.Name):
+            f._is_call_func = True
             h = getattr(self, 'b_' + f.id, None)
             v, _ = st.lookup(f.id)
             if h is not None and v is None:
